@@ -1270,12 +1270,15 @@ class Bits:
 
         new_slice = bitstring.bitstore.offset_slice_indices_lsb0(slice(start, end, None), len(self))
         msb0_start, msb0_end = self._validate_slice(new_slice.start, new_slice.stop)
-        p = self._rfind_msb0(bs, msb0_start, msb0_end, bytealigned)
-
-        if p:
-            return (len(self) - p[0] - len(bs),)
-        else:
-            return ()
+        if not bytealigned:
+            p = self._rfind_msb0(bs, msb0_start, msb0_end, False)
+            return (len(self) - p[0] - len(bs),) if p else ()
+        # The byte alignment needs to be checked on the LSB0 position, not the MSB0 one.
+        for p in self._bitstore.rfindall_msb0(bs._bitstore, msb0_start, msb0_end, False):
+            lsb0_pos = len(self) - p - len(bs)
+            if lsb0_pos % 8 == 0:
+                return (lsb0_pos,)
+        return ()
 
     def _find_msb0(self, bs: Bits, start: int, end: int, bytealigned: bool) -> Union[Tuple[int], Tuple[()]]:
         """Find first occurrence of a binary string."""
@@ -1387,12 +1390,15 @@ class Bits:
         assert bitstring.options.lsb0
         new_slice = bitstring.bitstore.offset_slice_indices_lsb0(slice(start, end, None), len(self))
         msb0_start, msb0_end = self._validate_slice(new_slice.start, new_slice.stop)
-
-        p = self._find_msb0(bs, msb0_start, msb0_end, bytealigned)
-        if p:
-            return (len(self) - p[0] - len(bs),)
-        else:
-            return ()
+        if not bytealigned:
+            p = self._find_msb0(bs, msb0_start, msb0_end, False)
+            return (len(self) - p[0] - len(bs),) if p else ()
+        # The byte alignment needs to be checked on the LSB0 position, not the MSB0 one.
+        for p in self._bitstore.findall_msb0(bs._bitstore, msb0_start, msb0_end, False):
+            lsb0_pos = len(self) - p - len(bs)
+            if lsb0_pos % 8 == 0:
+                return (lsb0_pos,)
+        return ()
 
     def cut(self, bits: int, start: Optional[int] = None, end: Optional[int] = None,
             count: Optional[int] = None) -> Iterator[Bits]:
